@@ -329,6 +329,17 @@ class Outcome:
         return (self.events, self.end)
 
 
+class _At:
+    """An expression evaluated in the context of a CFG node (reaching definitions of that node): looks like the node, carries the expression"""
+
+    def __init__(self, expr, node):
+        self.__dict__["ast"] = expr
+        self.__dict__["_node"] = node
+
+    def __getattr__(self, name):
+        return getattr(self.__dict__["_node"], name)
+
+
 def walk_table(
     cfg: CFG,
     start: Node,
@@ -349,7 +360,34 @@ def walk_table(
     out: List[Outcome] = []
     used: Set[Tuple[int, int, object]] = set()
 
-    def rec(n: Node, ev: Tuple[str, ...], unk: Tuple, trace: Tuple):
+    from .cfg import normalise_test
+
+    def truth3(expr, at: Node) -> Optional[bool]:
+        """3-valued truth of a boolean expression assigned at `at`, atoms classified in the context of that node"""
+        if isinstance(expr, ast.BoolOp):
+            vals = [truth3(v, at) for v in expr.values]
+            if isinstance(expr.op, ast.And):
+                return False if any(v is False for v in vals) else (True if all(v is True for v in vals) else None)
+            return True if any(v is True for v in vals) else (False if all(v is False for v in vals) else None)
+        if isinstance(expr, ast.UnaryOp) and isinstance(expr.op, ast.Not):
+            v = truth3(expr.operand, at)
+            return None if v is None else (not v)
+        if isinstance(expr, ast.Constant):
+            return bool(expr.value)
+        e2, flip = normalise_test(expr)
+        try:
+            c = classify(_At(e2, at))
+        except Exception:
+            c = None
+        if c is None:
+            return None
+        v = scenario.get(c[0])
+        if v is None:
+            return None
+        v = v if c[1] else (not v)
+        return (not v) if flip else v
+
+    def rec(n: Node, ev: Tuple[str, ...], unk: Tuple, trace: Tuple, env: Dict = {}):
         if len(out) > limit:
             return
         lab = stop(n)
@@ -358,6 +396,10 @@ def walk_table(
             return
         ev2 = ev + tuple(events(n))
         succ = n.succ
+        if n.kind == "stmt" and isinstance(n.ast, ast.Assign) and len(n.ast.targets) == 1 and isinstance(n.ast.targets[0], ast.Name):
+            # flags set along the path (`ret = <boolean expression>` of a spliced helper, later tested as `if ret:`)
+            env = dict(env)
+            env[n.ast.targets[0].id] = (n.ast.value, n)
         if n.kind == "test":
             c = classify(n)
             val: Optional[bool] = None
@@ -366,6 +408,8 @@ def walk_table(
                 v = scenario.get(atom)
                 if v is not None:
                     val = v if positive else (not v)
+            elif isinstance(n.ast, ast.Name) and n.ast.id in env:
+                val = truth3(*env[n.ast.id])
             text = " ".join(src(n.ast).split())
             if val is not None:
                 succ = [(m, l) for (m, l) in n.succ if l == val]
@@ -378,7 +422,7 @@ def walk_table(
                     if e in used:
                         continue
                     used.add(e)
-                    rec(m, ev2, unk + ((text, l, c[0] if c else None),), trace + ((n.lineno, text, l, False),))
+                    rec(m, ev2, unk + ((text, l, c[0] if c else None),), trace + ((n.lineno, text, l, False),), env)
                     used.discard(e)
                 return
         if n.kind == "for":
@@ -402,7 +446,7 @@ def walk_table(
             if e in used:
                 continue
             used.add(e)
-            rec(m, ev2, unk, trace)
+            rec(m, ev2, unk, trace, env)
             used.discard(e)
 
     rec(start, (), (), ())
